@@ -316,11 +316,21 @@ def check_history(env, acc):
         for hist in itertools.product(alpha, repeat=d):
             if hist[-1][0] != "set" and d > 1 and all(h[0] == "map" for h in hist):
                 continue
-            r, cfg = replay_hist(hist)
+            try:
+                r, cfg = replay_hist(hist)
+            except Exception as e:  # noqa: BLE001
+                acc.violation("mapping_fails", {"scenario": "history_error_model", "history": hist, "seed": env.seed},
+                              {"error": repr(e)})
+                continue
             for sd in (0, 5):
                 acc.tick("executions", 2); acc.tick("transitions")
-                a = spec_struct(r.map(c, seed=sd)._get_circuit_spec())
-                b = spec_struct(fresh(cfg).map(c, seed=sd)._get_circuit_spec())
+                try:
+                    a = spec_struct(r.map(c, seed=sd)._get_circuit_spec())
+                    b = spec_struct(fresh(cfg).map(c, seed=sd)._get_circuit_spec())
+                except Exception as e:  # noqa: BLE001
+                    acc.violation("mapping_fails", {"scenario": "history_error_model", "history": hist, "map_seed": sd,
+                                                    "seed": env.seed}, {"error": repr(e)})
+                    break
                 if a != b:
                     acc.violation("mapping_depends_on_error_model_history",
                                   {"scenario": "history_error_model", "history": hist, "map_seed": sd, "seed": env.seed}, None)
